@@ -29,6 +29,10 @@ async fn observe(pattern: &str, key: &str, bystanders: &[String]) -> Result<(Opt
     // subscriptions of other clients (kept alive until the end, or ended again at once)
     let mut others = vec![];
     for (i, b) in bystanders.iter().enumerate() {
+        if b.starts_with('~') {
+            // comes and goes *after* the subscription under test exists (below)
+            continue;
+        }
         let (p, gone) = match b.strip_prefix('-') {
             Some(p) => (p, true),
             None => (b.as_str(), false),
@@ -50,6 +54,14 @@ async fn observe(pattern: &str, key: &str, bystanders: &[String]) -> Result<(Opt
         .map_err(|e| Failure::new("c04.setup", "set accepted", err_code(&e)))?;
 
     let sub = wb.psubscribe(me, 1, pattern.to_owned(), false, true).await;
+    for (i, b) in bystanders.iter().enumerate() {
+        if let Some(p) = b.strip_prefix('~') {
+            let id = uuid(80 + i as u128);
+            if wb.psubscribe(id, 1, p.to_owned(), false, true).await.is_ok() {
+                wb.unsubscribe(id, 1).await.map_err(|e| Failure::new("c04.setup", "unsubscribe accepted", err_code(&e)))?;
+            }
+        }
+    }
     let got = wb.pget(pattern);
     // second set of both keys: live events
     wb.set(key.to_owned(), json!(2), uuid(INTERNAL), false)
@@ -249,7 +261,7 @@ fn derive(key: &[String], muts: &[u8], cut: usize, tail: u8, other: &str) -> Str
 
 fn rand_pair() -> BoxedStrategy<Pair> {
     let shape = || (proptest::collection::vec(0..12u8, 8), 0..9usize, 0..10u8, rand_seg());
-    (proptest::collection::vec(rand_seg(), 1..=8), shape(), proptest::collection::vec((shape(), any::<bool>()), 0..=2))
+    (proptest::collection::vec(rand_seg(), 1..=8), shape(), proptest::collection::vec((shape(), 0..3u8), 0..=2))
         .prop_map(|(mut key, (muts, cut, tail, other), by)| {
             if key.len() == 1 && key[0].is_empty() {
                 // the empty string is not a key
@@ -260,7 +272,11 @@ fn rand_pair() -> BoxedStrategy<Pair> {
                 .into_iter()
                 .map(|((muts, cut, tail, other), gone)| {
                     let p = derive(&key, &muts, cut, tail, &other);
-                    if gone { format!("-{p}") } else { p }
+                    match gone {
+                        0 => p,
+                        1 => format!("-{p}"),
+                        _ => format!("~{p}"),
+                    }
                 })
                 .collect();
             Pair { pattern, key: key.join("/"), bystanders }
@@ -313,6 +329,7 @@ pub fn run(cfg: &RunCfg) -> i32 {
                 for k in &small_keys {
                     pairs.push(Pair { pattern: p.clone(), key: k.clone(), bystanders: vec![b.clone()] });
                     pairs.push(Pair { pattern: p.clone(), key: k.clone(), bystanders: vec![format!("-{b}")] });
+                    pairs.push(Pair { pattern: p.clone(), key: k.clone(), bystanders: vec![format!("~{b}")] });
                 }
             }
         }
@@ -320,7 +337,7 @@ pub fn run(cfg: &RunCfg) -> i32 {
         let (agg, v) = run_enumerated(cfg, &pairs, |p| check_pair(p, &kfs));
         check.add_part(
             "coexisting",
-            &format!("{n_pairs} cases: all valid patterns over {{a,?,#}} of depth 1..=3 x every such pattern as the subscription of another client (alive, or already ended again) x all keys over {{a,b}} of depth 1..=3; same oracle; distinct = case"),
+            &format!("{n_pairs} cases: all valid patterns over {{a,?,#}} of depth 1..=3 x every such pattern as the subscription of another client (alive; made and ended before the pattern under test is subscribed; made and ended after it) x all keys over {{a,b}} of depth 1..=3; same oracle; distinct = case"),
             true,
             agg,
         );
